@@ -1004,11 +1004,23 @@ class PX:
                 # a &mut argument may be written through: havoc the pointee (type-directed: declared arg type unknown here,
                 # so use the MIR operand: refs to locals created with &mut are marked by the caller's rvalue; we havoc
                 # conservatively every local-rooted place whose reference is passed and whose call is not known pure)
-                if a[0] == 'ref' and a[1][0] in ('L', 'F') and self.root(a[1])[0] == 'L':
+                if a[0] == 'ref' and a[1][0] in ('L', 'F') and self.root(a[1])[0] == 'L' and not self.shared_ref_operand(t, i):
                     pl = a[1]
                     old = self.read(st, pl)
-                    self.write_quiet(st, pl, ('mut', old, name, st.uid()))
+                    self.write_quiet(st, pl, ('mut', old, name, st.uid(), tuple(self.snap(st, x) for x in args[:i] + args[i + 1:])))
         return [(st, ('call', name, tuple(args), st.uid()))]
+
+    @staticmethod
+    def shared_ref_operand(t, i):
+        """is argument i of call terminator t a shared reference (`&T`, not `&mut T`) by its MIR operand type?"""
+        try:
+            o = t['args'][i]
+        except (IndexError, KeyError, TypeError):
+            return False
+        pl = o.get('move') or o.get('copy')
+        ty = (pl or {}).get('ty') or (o.get('const') or {}).get('cty') or ''
+        ty = ty.strip()
+        return ty.startswith('&') and not ty.startswith('&mut') and 'Cell<' not in ty and 'Mutex<' not in ty and 'Atomic' not in ty
 
     def write_quiet(self, st, pl, val):
         n = len(st.events)
